@@ -1673,6 +1673,17 @@ int vnaproperty_vdelete(vnaproperty_t **rootptr, const char *format,
     int rv = -1;
 
     /*
+     * Deleting the whole tree (".") is how callers, including the
+     * library's own free functions, release a property tree.  It must
+     * not fail for lack of memory, so handle it without parsing.
+     */
+    if (strcmp(format, ".") == 0) {
+	vnaproperty_free(*rootptr);
+	*rootptr = NULL;
+	return 0;
+    }
+
+    /*
      * Parse the expression and descend to the requested node.
      */
     if ((anchor = parse_and_descend(&parser, rootptr, /*set*/false,
